@@ -39,7 +39,8 @@ class Folder:
             if len(a) == 2 and E.strip(a[1]).get("k") == "str":
                 return self._chars(E.strip(a[1])["v"])
             if len(a) == 3 and E.const(a[1]) is not None and E.const(a[2]) is not None:
-                return frozenset(range(E.const(a[1]) & 0xFF, (E.const(a[2]) & 0xFF) + 1))
+                lo, hi = E.const(a[1]) & 0xFF, E.const(a[2]) & 0xFF
+                return frozenset(range(lo, hi + 1)) if lo <= hi else frozenset([hi])    # addRange(low, high) always sets `high` (C50 S2)
             if len(a) == 2:
                 # initializer_list<pair<uint8_t,uint8_t>>
                 vals = [E.const(n) for n in E.walk(a[1]) if n.get("k") == "lit" and "v" in n]
@@ -48,7 +49,8 @@ class Folder:
                 if nums and len(nums) % 2 == 0:
                     out = set()
                     for i in range(0, len(nums), 2):
-                        out |= set(range(nums[i] & 0xFF, (nums[i + 1] & 0xFF) + 1))
+                        lo, hi = nums[i] & 0xFF, nums[i + 1] & 0xFF
+                        out |= set(range(lo, hi + 1)) if lo <= hi else {hi}
                     return frozenset(out)
             raise AnalysisBroken("unrecognised CharacterSet constructor form: %s" % E.key(t)[:120])
         if k == "call":
@@ -66,6 +68,10 @@ class Folder:
                 return ALL - self.fold(t["o"])
             if last == "rename" and "o" in t:
                 return self.fold(t["o"])
+            if last in ("add", "remove") and "o" in t and len(t.get("a", [])) == 1 and E.const(t["a"][0]) is not None:
+                base = self.fold(t["o"])
+                c = frozenset([E.const(t["a"][0]) & 0xFF])
+                return (base | c) if last == "add" else (base - c)
             return self.fold_function(f)
         if k == "ref":
             if t.get("dk") in ("global",) or "::" in t.get("d", ""):
@@ -134,7 +140,13 @@ class Folder:
             ds = defs[x["d"]]
             if len(ds) != 1:
                 raise AnalysisBroken("local %s in %s has %d definitions" % (x["d"], fn.name, len(ds)))
-            return self.fold(ds[0])
+            return self._fold_local(fn, defs, ds[0])
+        if isinstance(x, dict) and x.get("k") == "call" and "o" in x and x.get("f", "").split("::")[-1] in ("rename", "add", "remove", "complement", "operator+", "operator-"):
+            # a chain rooted in a local (static const auto x = CharacterSet(Base()).add('?').rename(..)): fold the root through the local definitions
+            o = E.strip(x["o"])
+            if isinstance(o, dict) and o.get("k") == "ref" and o.get("dk") in ("local", "static") and o["d"] in defs:
+                base = self._fold_local(fn, defs, o)
+                return self.fold(dict(x, o={"k": "ctor", "f": "CharacterSet::CharacterSet", "t": "CharacterSet", "a": [{"k": "lit", "v": 0}, {"k": "str", "v": "".join(chr(c) for c in sorted(base))}]}))
         return self.fold(x)
 
 
